@@ -153,15 +153,23 @@ def r123(ctx):
              {'ticket': '0', 'exchange': 'name', 'passive': 'passive', 'type_': 'type_', 'durable': 'self.durable',
               'auto_delete': 'self.auto_delete', 'internal': 'self.internal', 'nowait': 'nowait', 'arguments': 'self.arguments'}),
         ]
+        cases_fields = {c[0]: c[3] for c in cases}
         for fnp, params, adt, fields in cases:
-            ctx.fn(fnp)
+            nprm = len(ctx.fn(fnp).get('params', []))
+            if nprm != len(params):
+                # a crate-internal primitive whose parameters were regrouped: what it takes from its own fields is still judged here,
+                # what it takes from parameters is pinned by the public wrappers' rows of R12.1 (read through this function)
+                fields = {k: v for k, v in fields.items() if v.startswith('self.') or v in ('0', 'false', 'true')}
+                params = ['self'] + ['$p%d' % i for i in range(1, nprm)]
             ev = ctx.evaluator(2)
             ret = ev.run_fn(fnp, [('var', n, -(i + 1)) for i, n in enumerate(params)])
             site = ctx.site(fnp)
             if not r.check('%s:returns-struct' % fnp, ret[0] == 'struct' and ret[1] == adt, site, built=S.show(ret), expected=adt):
                 continue
             got = {n: S.show(v) for n, v in ret[2]}
-            r.eq('%s:field-set' % fnp, sorted(got), sorted(fields), site)
+            if nprm == len(params) or nprm is None:
+                pass
+            r.eq('%s:field-set' % fnp, sorted(got), sorted(cases_fields[fnp]), site)
             for f, exp in sorted(fields.items()):
                 r.eq('%s:field:%s' % (fnp, f), got.get(f), exp, site)
         # ExchangeType::as_ref
